@@ -9,11 +9,14 @@ package checks
 import (
 	"encoding/json"
 	"fmt"
+	"math"
 	"math/big"
 	"testing"
 
 	sdk "github.com/cosmos/cosmos-sdk/types"
 	"pgregory.net/rapid"
+
+	"github.com/comdex-official/comdex/app/wasm/bindings"
 
 	"verif/rec"
 )
@@ -26,6 +29,9 @@ type c18PosCase struct {
 	LockAmt  string   `json:"locker_amount"`
 	T        []int64  `json:"intervals"` // seconds between trigger points; the last interval ends at the final calculation
 	Triggers []string `json:"triggers"`  // at each intermediate point: "calc", "lsr-same", "lsr-other", "both"
+	// stability fee in force during each interval (governance updates the product at the interval's start when it
+	// differs from the previous one); empty = the product's fee throughout
+	Fees []string `json:"fee_schedule,omitempty"`
 }
 
 func c18PosRun(t rec.TB, r *rec.Rec, cs *c18PosCase) {
@@ -52,6 +58,14 @@ func c18PosRun(t rec.TB, r *rec.Rec, cs *c18PosCase) {
 			lrate = cs.Cfg.Lockers[cs.Locker].LSR
 		}
 		for i, dt := range cs.T {
+			if i > 0 && len(cs.Fees) == len(cs.T) && cs.Fees[i] != cs.Fees[i-1] {
+				pv, _ := m.c.App.AssetKeeper.GetPairsVault(m.c.Ctx, p.ID)
+				if err := m.c.App.AssetKeeper.WasmUpdatePairsVault(m.c.Ctx, &bindings.MsgUpdatePairsVault{AppID: m.apps[p.App], ExtPairID: p.ID,
+					StabilityFee: sdk.MustNewDecFromStr(cs.Fees[i]), ClosingFee: pv.ClosingFee, LiquidationPenalty: pv.LiquidationPenalty, DrawDownFee: pv.DrawDownFee,
+					IsVaultActive: pv.IsVaultActive, MinCr: pv.MinCr, DebtCeiling: pv.DebtCeiling, DebtFloor: pv.DebtFloor, MinUsdValueLeft: pv.MinUsdValueLeft}); err != nil {
+					panic(err)
+				}
+			}
 			do(vOp{K: "block", Dt: dt})
 			last := i == len(cs.T)-1
 			if !last && !withTriggers {
@@ -117,8 +131,39 @@ func c18PosRun(t rec.TB, r *rec.Rec, cs *c18PosCase) {
 	if len(cs.Cfg.Lockers) > 0 {
 		lockP, lockRate = mustInt(cs.LockAmt).MulRaw(2).AddRaw(1), cs.Cfg.Lockers[cs.Locker].LSR
 	}
-	if new(big.Rat).Sub(oftenV, onceV).Cmp(tolFor(onceV, vaultP, cs.Cfg.Products[cs.Product].Stability)) > 0 {
-		r.Fail(t, "C18.more-triggers-never-owe-more", "vault-interest", cs, "vault owes %s after intermediate interest calculations, %s after a single one", oftenV.FloatString(18), onceV.FloatString(18))
+	scheduled := len(cs.Fees) == len(cs.T)
+	// reference: compound growth of the principal over the fee schedule, P * (prod_i (1+r_i)^(dt_i/year) - 1), i.e.
+	// the single accrual over the combined interval; evaluated in float64 like the module
+	growth := 1.0
+	for i, dt := range cs.T {
+		f := cs.Cfg.Products[cs.Product].Stability
+		if scheduled {
+			f = cs.Fees[i]
+		}
+		rate, _ := sdk.MustNewDecFromStr(f).Float64()
+		growth *= math.Pow(1+rate, float64(dt)/31557600) // the module counts 365.25 days to the year
+	}
+	pf, _ := new(big.Float).SetInt(mustInt(cs.Out).BigInt()).Float64()
+	want := pf * (growth - 1)
+	slack := 1e-6*want + float64(4*len(cs.T)) + 1 // block times sit at most seconds off the nominal schedule; sub-unit remainders per calculation
+	gotOnce, _ := onceV.Float64()
+	gotOften, _ := oftenV.Float64()
+	if gotOnce > want+slack {
+		r.Fail(t, "C18.interest-within-single-accrual-over-the-schedule", "vault-interest,few-triggers", cs, "vault owes %.6f after a single calculation; principal %s grown over %v at %v gives %.6f", gotOnce, cs.Out, cs.T, cs.Fees, want)
+	}
+	if gotOften > want+slack {
+		r.Fail(t, "C18.interest-within-single-accrual-over-the-schedule", "vault-interest,many-triggers", cs, "vault owes %.6f with intermediate calculations; principal %s grown over %v at %v gives %.6f", gotOften, cs.Out, cs.T, cs.Fees, want)
+	}
+	if !scheduled {
+		// one fee throughout: the two histories must agree, and agree with the reference
+		if new(big.Rat).Sub(oftenV, onceV).Cmp(tolFor(onceV, vaultP, cs.Cfg.Products[cs.Product].Stability)) > 0 {
+			r.Fail(t, "C18.more-triggers-never-owe-more", "vault-interest", cs, "vault owes %s after intermediate interest calculations, %s after a single one", oftenV.FloatString(18), onceV.FloatString(18))
+		}
+		if math.Abs(gotOnce-want) > slack {
+			r.Fail(t, "C18.interest-equals-compound-growth", "vault-interest", cs, "vault owes %.6f after a single calculation; principal %s grown over %v gives %.6f", gotOnce, cs.Out, cs.T, want)
+		}
+	} else {
+		r.Class("fee-schedule-with-changes")
 	}
 	if new(big.Rat).Sub(oftenL, onceL).Cmp(tolFor(onceL, lockP, lockRate)) > 0 {
 		r.Fail(t, "C18.more-triggers-never-earn-more", "locker-savings", cs, "locker is worth %s after intermediate calculations / rate settlement, %s after a single one", oftenL.FloatString(18), onceL.FloatString(18))
@@ -179,6 +224,12 @@ func TestC18_position(t *testing.T) {
 				cs.T = append(cs.T, rapid.SampledFrom([]int64{5, 6, 60, 3600, 86400, 30 * 86400, 365 * 86400}).Draw(rt, fmt.Sprintf("dt%d", i)))
 				if i < n-1 {
 					cs.Triggers = append(cs.Triggers, rapid.SampledFrom([]string{"calc", "lsr-same", "both"}).Draw(rt, fmt.Sprintf("trig%d", i)))
+				}
+			}
+			if rapid.Bool().Draw(rt, "feeschedule") {
+				cs.Fees = []string{p.Stability}
+				for i := 1; i < n; i++ {
+					cs.Fees = append(cs.Fees, rapid.SampledFrom([]string{p.Stability, "0", "0", "0.05", "0.5"}).Draw(rt, fmt.Sprintf("fee%d", i)))
 				}
 			}
 			c18PosRun(rt, r, cs)
